@@ -51,6 +51,7 @@ KNOWN = [
           [ins('c0', {'id': 'a', 'p': [{'__t': '__dt', '__v': '2020-01-02T03:04:05.000006Z'}]}), ['reload'], qry('c0')]),
     {'kind': 'codec', 'probe': 'C06-ext-tag-clash', 'values': [enc({'__t': '__d', '__v': '2020-1-2'})]},
     {'kind': 'codec', 'probe': 'C06-date-before-1000', 'values': [enc([datetime.datetime(33, 3, 3, 3, 3, 3)])]},
+    {'kind': 'ids', 'probe': 'C06-mongo-id-newline', 'ids': ['0123456789abcdef01234567\n']},
 ]
 
 def known_slice(shards):
@@ -88,7 +89,18 @@ FIXED = [
     {'ops': [rep('c0', 'a', {'n': 1}), rep('c0', 'a', {'n': 2}), qry('c0')], 'only': ['api']},
 ]
 
+UP = 'DEADBEEF00112233AABBCCDD'
+
 REGRESSION = [
+    # explicit ids that look like ObjectIds, in both cases: two different records, each addressed by its own spelling
+    {'ops': [ins('c0', {'id': UP, 'n': 1}), qry('c0', filt={'id': UP}), ins('c0', {'id': UP.lower(), 'n': 2}),
+             qry('c0', sort=[['n', False]]), rem('c0', {'id': UP.lower()}), qry('c0'), upd('c0', {'n': 5}, {'id': {'in': [UP.lower(), UP]}}),
+             rep('c0', UP.lower(), {'n': 7}), qry('c0', fields=['id'])]},
+    {'kind': 'ids', 'ids': [UP, UP.lower(), 'DeadBeef00112233aabbccDD', UP[:23], UP + '0', 'abcdefabcdef', '', '0' * 24, 'G' * 24]},
+    # ids around the id counters and in key syntax
+    {'ops': [ins('c0', {'id': '01', 'n': 1}), ins('c0', {'n': 2}, 1), ins('c0', {'id': '1.0', 'n': 3}), ins('c0', {'id': ' 1', 'n': 4}),
+             ins('c0', {'n': 5}, 2), ins('c0', {'id': 'c0:a', 'n': 6}), ins('c1', {'id': 'a', 'n': 7}), ins('c0', {'id': '-id-set', 'n': 8}),
+             qry('c0', sort=[['n', False]]), qry('c1'), rem('c0', {'id': '1'}), rem('c0', {'id': 'a'}), qry('c0', fields=['id', 'n'], sort=[['n', True]])]},
     # ties, multi-key sort, limit cutting a tie group
     {'ops': [ins('c0', {'id': 'a', 'n': 1, 's': 'b'}), ins('c0', {'id': 'b', 'n': 1, 's': 'a'}), ins('c0', {'id': 'c', 'n': 0, 's': 'c'}),
              ins('c0', {'id': 'd', 'n': 1, 's': 'a'}),
